@@ -518,8 +518,233 @@ fn run_group(rng: &mut Rng, stream: bool, id: &str, prof: &Profile) {
     reset();
 }
 
+fn parse_step(s: &str) -> Step {
+    let mut parts = s.split('@');
+    let r = parts.next().unwrap();
+    let res = match r.chars().next().unwrap() {
+        'P' => Res::Pend,
+        'F' => Res::Fin,
+        'X' => Res::Panic,
+        'R' => Res::Ready(true, r[1..].parse().unwrap()),
+        'E' => Res::Ready(false, r[1..].parse().unwrap()),
+        'I' => Res::Item(r[1..].parse().unwrap()),
+        _ => panic!("bad step {s}"),
+    };
+    let fires = parts
+        .map(|f| {
+            let mut it = f.split('.');
+            (it.next().unwrap().parse().unwrap(), it.next().unwrap().parse().unwrap())
+        })
+        .collect();
+    Step { res, fires }
+}
+
+/// re-execute the cases given on stdin (CASE / S / O lines; T lines are ignored)
+fn replay() {
+    use std::io::BufRead;
+    let stdin = std::io::stdin();
+    let mut header: Option<String> = None;
+    let mut scripts: Vec<(usize, Vec<Step>)> = vec![];
+    let mut ops: Vec<String> = vec![];
+    for line in stdin.lock().lines() {
+        let line = line.unwrap();
+        let ws: Vec<&str> = line.split_whitespace().collect();
+        if ws.is_empty() {
+            continue;
+        }
+        match ws[0] {
+            "CASE" => {
+                header = Some(line.clone());
+                scripts.clear();
+                ops.clear();
+            }
+            "S" => scripts.push((ws[1].parse().unwrap(), ws[2..].iter().map(|s| parse_step(s)).collect())),
+            "O" => ops.push(ws[1..].join(" ")),
+            "END" => {
+                if let Some(h) = header.take() {
+                    replay_one(&h, &scripts, &ops);
+                }
+            }
+            _ => {}
+        }
+    }
+}
+
+fn replay_one(header: &str, scripts: &[(usize, Vec<Step>)], ops: &[String]) {
+    reset();
+    let hw: Vec<&str> = header.split_whitespace().collect();
+    let fam = hw[2];
+    let keyed = hw[4] == "1";
+    let n: usize = hw[5].parse().unwrap();
+    let kind = match hw.get(6).cloned().unwrap_or("vec") {
+        "vec" => Kind::Vec,
+        "arr" => Kind::Arr,
+        "tup" => Kind::Tup,
+        "ext" => Kind::Ext,
+        _ => Kind::Vec,
+    };
+    let nch = scripts.iter().map(|(c, _)| c + 1).max().unwrap_or(0).max(n);
+    for c in 0..nch {
+        let s = scripts.iter().find(|(c2, _)| *c2 == c).map(|(_, s)| s.clone()).unwrap_or_default();
+        add_child(s, c);
+    }
+    let block = Block { header: header.to_string(), scripts: scripts.to_vec(), ops: ops.to_vec() };
+    let is_group = fam == "futGroup" || fam == "strGroup";
+    if is_group {
+        #[cfg(feature = "cfg-alloc")]
+        replay_group(fam == "strGroup", keyed, ops);
+    } else {
+        let _ = keyed;
+        let mut comb: Option<Box<dyn Comb>> = Some(match fam {
+            "joinSlice" | "joinTuple" => build_join(kind, n),
+            "tryJoinSlice" | "tryJoinTuple" => build_try_join(kind, n),
+            "race" => build_race(kind, n),
+            "raceOkArr" | "raceOkVec" | "raceOkTup" => build_race_ok(kind, n),
+            "merge" => build_merge(kind, n),
+            "zip" => build_zip(kind, n),
+            "chain" => build_chain(kind, n),
+            "waitF" => build_wait_f(),
+            "waitS" => build_wait_s(),
+            _ => panic!("unknown family {fam}"),
+        });
+        for o in ops {
+            let ws: Vec<&str> = o.split(' ').collect();
+            match ws[0] {
+                "p" => {
+                    if let Some(c) = comb.as_mut() {
+                        do_poll(&mut |cx| c.poll(cx), ws[1].parse().unwrap());
+                    }
+                }
+                "f" => fire(ws[1].parse().unwrap(), ws[2].parse().unwrap()),
+                "d" => {
+                    log("db".into());
+                    drop(comb.take());
+                    log("de".into());
+                }
+                _ => {}
+            }
+        }
+        if comb.is_some() {
+            set_mute(true);
+            drop(comb.take());
+            set_mute(false);
+        }
+    }
+    let trace = CTX.with(|c| std::mem::take(&mut c.borrow_mut().log));
+    block.print(&trace);
+    reset();
+}
+
+#[cfg(feature = "cfg-alloc")]
+fn replay_group(stream: bool, keyed: bool, ops: &[String]) {
+    use crate::groups::*;
+    let mut g: Option<Box<dyn GroupDyn>> = Some(build_group(stream, keyed));
+    let mut mirror = SlabMirror::default();
+    let nch = CTX.with(|c| c.borrow().scripts.len());
+    let mut key_of: Vec<Option<usize>> = vec![None; nch];
+    for o in ops {
+        let ws: Vec<&str> = o.split(' ').collect();
+        if ws[0] == "f" {
+            fire(ws[1].parse().unwrap(), ws[2].parse().unwrap());
+            continue;
+        }
+        if ws[0] == "d" {
+            log("db".into());
+            drop(g.take());
+            log("de".into());
+            continue;
+        }
+        let grp = match g.as_mut() {
+            Some(g) => g,
+            None => continue,
+        };
+        match ws[0] {
+            "i" => {
+                let c: usize = ws[1].parse().unwrap();
+                let k = grp.insert(c);
+                let mk = mirror.insert();
+                set_slot(c, k);
+                key_of[c] = Some(k);
+                log(format!("in {c} {k}"));
+                if mk != k {
+                    log(format!("mirror-mismatch {mk} {k}"));
+                }
+            }
+            "p" => {
+                let from = CTX.with(|c| c.borrow().log.len());
+                do_poll(&mut |cx| grp.poll(cx), ws[1].parse().unwrap());
+                let done: Vec<usize> = CTX.with(|c| {
+                    c.borrow().log[from..]
+                        .iter()
+                        .filter_map(|l| {
+                            let ws: Vec<&str> = l.split(' ').collect();
+                            if ws.len() == 3 && ws[0] == "ce" && (ws[2].starts_with('R') || ws[2] == "F") {
+                                ws[1].parse().ok()
+                            } else {
+                                None
+                            }
+                        })
+                        .collect()
+                });
+                for c in done {
+                    if let Some(k) = key_of[c].take() {
+                        mirror.remove(k);
+                    }
+                }
+            }
+            "r" => {
+                if let Some((k, present)) = grp.remove(ws[1].parse().unwrap()) {
+                    if present {
+                        mirror.remove(k);
+                        for ko in key_of.iter_mut() {
+                            if *ko == Some(k) {
+                                *ko = None;
+                            }
+                        }
+                    }
+                    log(format!("rm {k} {}", if present { 1 } else { 0 }));
+                }
+            }
+            "v" => grp.reserve(ws[1].parse().unwrap()),
+            "e" => {
+                let cs: Vec<usize> = if ws[1] == "-" { vec![] } else { ws[1].split(',').map(|x| x.parse().unwrap()).collect() };
+                let mut probe = vec![];
+                for c in &cs {
+                    let k = mirror.insert();
+                    set_slot(*c, k);
+                    key_of[*c] = Some(k);
+                    probe.push((*c, k));
+                }
+                grp.extend(&cs);
+                for (c, k) in probe {
+                    log(format!("in {c} {k}"));
+                }
+            }
+            "ql" => log(format!("an 0 {}", grp.len())),
+            "qe" => log(format!("an 1 {}", if grp.is_empty() { 1 } else { 0 })),
+            "qc" => {
+                if let Some((k, p)) = grp.contains(ws[1].parse().unwrap()) {
+                    log(format!("an {} {}", 100 + k, if p { 1 } else { 0 }));
+                }
+            }
+            "qk" => log(format!("an 3 {}", grp.capacity())),
+            _ => {}
+        }
+    }
+    if g.is_some() {
+        set_mute(true);
+        drop(g.take());
+        set_mute(false);
+    }
+}
+
 fn main() {
     let args: Vec<String> = std::env::args().collect();
+    std::panic::set_hook(Box::new(|_| {}));
+    if args.get(1).map(|s| s.as_str()) == Some("replay") {
+        replay();
+        return;
+    }
     let seed: u64 = args.get(1).and_then(|s| s.parse().ok()).unwrap_or(1);
     let count: usize = args.get(2).and_then(|s| s.parse().ok()).unwrap_or(10);
     let fams: Vec<String> = args
